@@ -141,7 +141,10 @@ Definition exec (k : qkind) (m : qmode) (a : Z) (s : st) : st * res :=
       let s1 := autoflush_then k m s in (s1, map (fun p : N * (Z * N) => [zN (fst p)]) (sel_val a (dbc s1)))
   | Get =>
       match find_ident an (cs s) with
-      | Some o => (s, [ent o])                      (* identity-map hit: no SQL, no autoflush *)
+      | Some o => (s, [ent o])                      (* identity-map hit: no SQL, no autoflush (objects are never
+                                                       fully expired in this model, so the un-expire refresh of
+                                                       get_from_identity - with its own autoflush and the row-switch
+                                                       re-lookup - does not occur) *)
       | None =>
           let s1 := autoflush_then k m s in
           match find_ident an (cs s1) with
